@@ -43,3 +43,36 @@ def debug_logging(on: bool = True) -> Iterator[None]:
         pkg.propagate = old[2]
         logging.raiseExceptions = old[3]
         logging.disable(old[4])
+
+
+def install(mod, every: int = 4) -> None:
+    """Make the logging configuration a dimension of EVERY check: wrap `mod.check` so that a case flagged `debug_log`
+    runs under `debug_logging`, and flag every `every`-th case that does not say (the flag is written into the case, so
+    the recorded / replayed case reproduces it).  Jobs call `check` through the module global, so enumerated cases get
+    it too.  Deterministic: a per-process call counter, no randomness."""
+    if getattr(mod, "_logmode_installed", False) or getattr(mod, "LOGMODE", "auto") == "off":
+        return
+    inner = mod.check
+    counter = {"n": 0}
+
+    def check(case):  # type: ignore[no-untyped-def]
+        if not isinstance(case, dict):
+            return inner(case)
+        if "debug_log" not in case:
+            counter["n"] += 1
+            if counter["n"] % every == 0:
+                case["debug_log"] = True
+        if not case.get("debug_log"):
+            return inner(case)
+        with debug_logging(True):
+            out = inner(case)
+        try:
+            if "logging:DEBUG" not in tuple(out.classes):
+                out.classes = tuple(out.classes) + ("logging:DEBUG",)
+        except Exception:
+            pass
+        return out
+
+    check.__wrapped__ = inner  # type: ignore[attr-defined]
+    mod.check = check
+    mod._logmode_installed = True
